@@ -364,6 +364,11 @@ func (c *Constraint) matchesPermanodeTypes() []string {
 			}
 			return sb
 		case "or":
+			if len(sa) == 0 || len(sb) == 0 {
+				// One of the branches might match permanodes of
+				// any (or no) type.
+				return nil
+			}
 			return append(sa, sb...)
 		}
 	}
